@@ -720,6 +720,41 @@ impl<'ast, 'res> Resolver<'ast, 'res> {
         }
     }
 
+    /// Validates the argument count of a method call whose receiver type is unknown until
+    /// runtime: a name shared by built-in methods must be called with one of their arities.
+    /// Unknown method names are still reported at runtime.
+    fn check_dynamic_member_arity(&mut self, field: &str, arg_count: usize, span: Span) {
+        let arities = [
+            StringBuiltin::from_name(field).map(|b| b.arity()),
+            ArrayBuiltin::from_name(field).map(|b| b.arity()),
+            NumberBuiltin::from_name(field).map(|b| b.arity()),
+            ProcessCommandBuiltin::from_name(field).map(|b| b.arity()),
+            ProcessResultBuiltin::from_name(field).map(|b| b.arity()),
+        ];
+        let mut known = arities.iter().flatten();
+        let Some(&expected) = known.next() else {
+            return;
+        };
+        if expected == arg_count || known.any(|arity| *arity == arg_count) {
+            return;
+        }
+        self.emit_error(
+            span,
+            SemanticError::FunctionCallArity,
+            vec![Label {
+                span,
+                message: ArenaCow::Owned(arena_format!(
+                    self.arena,
+                    "Method `{}` dey expect {} argument{} but na {} dey here",
+                    field,
+                    expected,
+                    if expected == 1 { "" } else { "s" },
+                    arg_count
+                )),
+            }],
+        );
+    }
+
     #[inline]
     fn check_expr(&mut self, expr: ExprRef<'ast>) {
         match expr {
@@ -1104,6 +1139,14 @@ impl<'ast, 'res> Resolver<'ast, 'res> {
                                     );
                                 }
                             }
+                        }
+
+                        // The runtime dispatches a method call by name and reads the
+                        // arguments by position before the receiver's type is known, so the
+                        // argument count must fit the method even when the receiver's type
+                        // is only known at runtime.
+                        if matches!(self.infer_expr_type(object), None | Some(ValueType::Dynamic)) {
+                            self.check_dynamic_member_arity(field, args.args.len(), *span);
                         }
                     }
                     _ => self.check_expr(callee),
